@@ -293,6 +293,32 @@ func TestCheck(t *testing.T) {
 	rec(nil, 0)
 	run.Set("alphabet_size", len(al))
 	run.Set("exhaustive_sequences_up_to_length_3", len(jobs))
+	if run.Thorough() {
+		// every sequence of exactly 4 messages, for the two start states and two bystander
+		// configurations from which most sequences stay alive longest
+		n4 := 0
+		var rec4 func(prefix []symbol)
+		rec4 = func(prefix []symbol) {
+			if len(prefix) == 4 {
+				var names []string
+				for _, s := range prefix {
+					names = append(names, s.name)
+				}
+				for _, cfg := range []string{"none", "primary-rib"} {
+					for _, st := range []string{"fresh", "negotiated+primary"} {
+						jobs = append(jobs, job{id: cfg + ":" + st + ":" + strings.Join(names, ","), cfg: cfg, start: st, seq: append([]symbol{}, prefix...)})
+						n4++
+					}
+				}
+				return
+			}
+			for _, s := range al {
+				rec4(append(prefix, s))
+			}
+		}
+		rec4(nil)
+		run.Set("exhaustive_sequences_of_length_4", n4)
+	}
 	// random longer sequences
 	nRand := run.Pick(1500, 60000)
 	for i := 0; i < nRand; i++ {
@@ -326,5 +352,5 @@ func TestCheck(t *testing.T) {
 	}
 	run.Sample(map[string]any{"alphabet": names, "bystander_configurations": bystanderCfgs, "start_states": startStates})
 	run.Assume("expected termination statuses: INVALID_ARGUMENT for multi-field messages and the zero id; FAILED_PRECONDITION+MODIFY_NOT_ALLOWED for late/repeated parameters; UNIMPLEMENTED or FAILED_PRECONDITION with UNSUPPORTED_PARAMS for unsupported modes; FAILED_PRECONDITION+PARAMS_DIFFER_FROM_OTHER_CLIENTS for differing parameters; FAILED_PRECONDITION+ELECTION_ID_IN_ALL_PRIMARY for an election id without SINGLE_PRIMARY; UNIMPLEMENTED+UNSUPPORTED_PARAMS for operations without negotiation; any non-OK status (or in-band FAILED) for operations without / before / above an election id. Where two violations coincide either status is accepted; whether an un-negotiated live session constrains newcomers is left open")
-	run.Finish("ALL sequences of length <= 3 over a 20-symbol alphabet {8 session-parameter combinations, election zero/low/equal/high, operation with/without id, 6 multi-field messages incl. two whose election id is present but all-zero} on one session started in each of 4 states (fresh; negotiated; negotiated and primary; negotiated and superseded), in each of 6 bystander configurations (none; negotiated RIB/FIB primary with installed entries; un-negotiated session; combinations) - exhaustive for that space - plus random sequences of length 4-12; after EVERY message the termination status (code + ModifyRPCErrorDetails reason), the complete hooked server state vs the model and the silence of the other streams are checked; afterwards a fresh session must be able to negotiate and sees the unchanged maximum id. 1 in 97 sequences run over real gRPC", 1000, false)
+	run.Finish("ALL sequences of length <= 3 over a 20-symbol alphabet {8 session-parameter combinations, election zero/low/equal/high, operation with/without id, 6 multi-field messages incl. two whose election id is present but all-zero} on one session started in each of 4 states (fresh; negotiated; negotiated and primary; negotiated and superseded), in each of 6 bystander configurations (none; negotiated RIB/FIB primary with installed entries; un-negotiated session; combinations) - exhaustive for that space; in the thorough tier also ALL sequences of length 4 from the fresh and the primary start state without bystanders and next to a negotiated primary - plus random sequences of length 4-12; after EVERY message the termination status (code + ModifyRPCErrorDetails reason), the complete hooked server state vs the model and the silence of the other streams are checked; afterwards a fresh session must be able to negotiate and sees the unchanged maximum id. 1 in 97 sequences run over real gRPC", 1000, false)
 }
